@@ -19,7 +19,7 @@ class Inapplicable(Exception):
 KINDS = ["cell_number", "surface_number", "material_number", "transform_number",
          "surface_constant", "density", "importance", "volume", "title", "fraction",
          "tr_displacement", "universe_number", "material_assign",
-         "cell_universe", "fill_universe", "lattice", "boundary", "thermal_law", "tr_degrees"]
+         "cell_universe", "fill_universe", "lattice", "boundary", "thermal_law", "tr_degrees", "surface_transform"]
 
 
 def gen_program(rng, meta, n=None, kinds=None):
@@ -115,6 +115,10 @@ def gen_program(rng, meta, n=None, kinds=None):
         elif k == "tr_degrees" and meta["transforms"]:
             o = rng.choice(meta["transforms"])
             prog.append({"kind": k, "orig": o, "value": rng.random() < 0.5})
+        elif k == "surface_transform" and meta["transforms"]:
+            # give a surface a transform, another one, or none (del surface.transform)
+            o = rng.choice(meta["surfaces"])
+            prog.append({"kind": k, "orig": o, "transform": rng.choice(meta["transforms"] + [None])})
     return prog
 
 
@@ -139,6 +143,7 @@ def apply(h, e):
     own = {"cell_number": "cell", "density": "cell", "importance": "cell", "volume": "cell", "material_assign": "cell",
            "cell_universe": "cell", "fill_universe": "cell", "lattice": "cell",
            "surface_number": "surface", "surface_constant": "surface", "boundary": "surface",
+           "surface_transform": "surface",
            "material_number": "material", "fraction": "material", "thermal_law": "material",
            "transform_number": "transform", "tr_displacement": "transform", "tr_degrees": "transform"}
     if k in own and e["orig"] not in table[own[k]]:
@@ -262,6 +267,19 @@ def apply(h, e):
             s.is_reflecting = False
             s.is_white_boundary = False
         return True, [("value", 1, s.number, ("boundary",), e["value"])]
+    if k == "surface_transform":
+        s = h.surfaces[e["orig"]]
+        if s.periodic_surface is not None:
+            return False, []
+        if e["transform"] is None:
+            if s.transform is None:
+                return False, []
+            del s.transform
+            return True, [("value", 1, s.number, ("transform",), None)]
+        if e["transform"] not in h.transforms:
+            raise Inapplicable(f"transform {e['transform']}")
+        s.transform = h.transforms[e["transform"]]
+        return True, [("value", 1, s.number, ("transform",), h.transforms[e["transform"]].number)]
     if k == "thermal_law":
         m = h.materials[e["orig"]]
         if m.thermal_scattering is None:
